@@ -17,7 +17,13 @@ def content(cid, size):
 
 
 SIZES = [0, 1, 7, 100, 4095, 4096, 4097, 5000, 70000]
-NAMES = ['a', 'b', 'c', 'with space', 'юникод', 'x' * 120, 'dot.name', '-dash', 'd1', 'd2']
+NAMES = ['a', 'b', 'c', 'with space', 'юникод', 'x' * 120, 'dot.name', '-dash', 'd1', 'd2', 'ends with space ']
+
+
+def fname(rng, suffix):
+    """A name from NAMES made distinct by `suffix`; names ending in white space keep ending in it."""
+    n = rng.choice(NAMES)
+    return suffix + n if n[-1:].isspace() else n + suffix
 
 
 class World:
@@ -80,7 +86,7 @@ class World:
         try:
             if op == 'add' or not files:
                 d = rng.choice(dirs)
-                p = os.path.join(d, rng.choice(NAMES) + str(rng.randint(0, 3)))
+                p = os.path.join(d, fname(rng, str(rng.randint(0, 3))))
                 if not os.path.lexists(p):
                     self.next_cid += 1
                     self.write(p, self.next_cid, rng.choice(SIZES))
@@ -111,29 +117,29 @@ class World:
                     os.utime(p, ns=(t, t))
             elif op == 'rename':
                 p = rng.choice(files)
-                q = os.path.join(rng.choice(dirs), rng.choice(NAMES) + 'r')
+                q = os.path.join(rng.choice(dirs), fname(rng, 'r'))
                 if not os.path.lexists(q):
                     os.rename(p, q)
             elif op == 'delete':
                 os.unlink(rng.choice(files))
             elif op == 'dup':
                 p = rng.choice(files)
-                q = os.path.join(rng.choice(dirs), rng.choice(NAMES) + 'c')
+                q = os.path.join(rng.choice(dirs), fname(rng, 'c'))
                 if not os.path.lexists(q):
                     shutil.copyfile(p, q)
                     self.fresh_mtime(q)
             elif op == 'revive':
                 # content that existed before (possibly absent now) comes back at a new path
                 cid = rng.randint(1, max(1, self.next_cid))
-                q = os.path.join(rng.choice(dirs), rng.choice(NAMES) + 'v')
+                q = os.path.join(rng.choice(dirs), fname(rng, 'v'))
                 if not os.path.lexists(q):
                     self.write(q, cid, rng.choice(SIZES[1:]))
             elif op == 'mkdir':
-                q = os.path.join(rng.choice(dirs), rng.choice(NAMES) + 'd')
+                q = os.path.join(rng.choice(dirs), fname(rng, 'd'))
                 if not os.path.lexists(q) and q.count('/') < 14:
                     os.mkdir(q)
             elif op == 'symlink':
-                q = os.path.join(rng.choice(dirs), rng.choice(NAMES) + 'l')
+                q = os.path.join(rng.choice(dirs), fname(rng, 'l'))
                 if not os.path.lexists(q):
                     os.symlink(rng.choice(['/nonexistent/target', 'relative', 'T' * 300, '../up']), q)
             elif op == 'chmod':
